@@ -93,20 +93,31 @@ def annotations(ncells, max_seg, labels, unit=1.0, start=0.0):
     return out
 
 
-def splits(ann, unit, respell=None):
+def splits(ann, unit, respell=None, other=None):
     """All annotations obtained by cutting one interval at an interior half-cell point (same label on both
-    pieces; optionally an equivalent respelling on the second piece)."""
+    pieces; optionally an equivalent respelling on the second piece).  With `other` (the opposite annotation) the
+    cut points additionally include b - 2^-11 and b + 2^-11 for every boundary b of `other` (a refinement whose new
+    boundary almost coincides with a boundary of the other side)."""
     iv, labs = ann
     out = []
+    eps = Fr(1, 2048)
     for i, (s, e) in enumerate(iv):
+        cands = []
         c = Fr(s) + Fr(unit) / 2
         while c < Fr(e):
+            cands.append(c)
+            c += Fr(unit) / 2
+        if other is not None:
+            for b in sorted(set(Fr(x) for seg in other[0] for x in seg)):
+                for c in (b - eps, b + eps):
+                    if Fr(s) < c < Fr(e):
+                        cands.append(c)
+        for c in cands:
             cut = float(c)
             for alt in ([labs[i]] + (respell(labs[i]) if respell else [])):
                 niv = iv[:i] + ((s, cut), (cut, e)) + iv[i + 1:]
                 nl = labs[:i] + (labs[i], alt) + labs[i + 1:]
-                out.append(("cut[%d]@%g%s" % (i, cut, "" if alt == labs[i] else "~" + alt), (niv, nl)))
-            c += Fr(unit) / 2
+                out.append(("cut[%d]@%r%s" % (i, cut, "" if alt == labs[i] else "~" + alt), (niv, nl)))
     return out
 
 
@@ -198,7 +209,8 @@ def shard_split(arg):
     for ref in refs:
         for est in ests:
             acc.states += 1
-            edges = [("ref", l, n) for l, n in splits(ref, unit, rs)] + [("est", l, n) for l, n in splits(est, unit, rs)]
+            edges = [("ref", l, n) for l, n in splits(ref, unit, rs, est)] + \
+                    [("est", l, n) for l, n in splits(est, unit, rs, ref)]
             if edges:
                 acc.nontrivial += 1
             for side, label, new_ann in edges:
@@ -208,6 +220,8 @@ def shard_split(arg):
                     acc.counters["split_edges:%s" % which] += 1
                     if "~" in label:
                         acc.counters["split_edges_with_respelled_piece"] += 1
+                    if "." in label.split("@")[1][:12] and label.split("@")[1].split("~")[0][-3:] not in (".0", ".5"):
+                        acc.counters["split_edges_near_a_boundary_of_the_other_side"] += 1
                     check_split(acc, which, ref, est, side, label, new_ann, fs)
     if refs and ests:
         acc.sample({"kind": "split", "which": which, "ref": refs[-1], "est": ests[-1]})
@@ -285,8 +299,9 @@ def run(run):
     unit = 1.0
     labels = [("C", "N", "G:7", "C:min"), ("Db", "X", "A:min7", "C"), ("C", "X", "C:min", "G:7"),
               ("N", "Db", "C", "A:min7")][ph % 4]
-    refs = annotations(4, 3, labels if thorough else labels[:3], unit, float(ph))
-    ests = annotations(4, 3 if thorough else 2, labels if thorough else labels[:3], unit, float(ph))
+    origin = 64.0 + float(ph)          # far from 0: a relative closeness test (rtol * t) exceeds the 2^-11 s slivers
+    refs = annotations(4, 3, labels if thorough else labels[:3], unit, origin)
+    ests = annotations(4, 3 if thorough else 2, labels if thorough else labels[:3], unit, origin)
     run.explore("chord.evaluate split edges", __name__, "shard_split",
                 [("chord", ch, ests, unit, [None]) for ch in core.chunks(refs, 64)])
     seg_labels = [("a", "b", "c"), ("x", "Y", "z"), ("b", "a", "A2"), ("s1", "s2", "s3")][ph % 4]
@@ -299,4 +314,4 @@ def run(run):
                 [(ch, hs if thorough else hs[::3], 1.0, 0.5) for ch in core.chunks(hs, 32)])
     run.require_nonvacuous("weights.all_comparable_are_1", "weights.all_comparable_are_0", "weights.some_incomparable",
                            "split_edges:chord", "split_edges:segment", "split_edges:hier",
-                           "split_edges_with_respelled_piece")
+                           "split_edges_with_respelled_piece", "split_edges_near_a_boundary_of_the_other_side")
